@@ -42,7 +42,9 @@ class Contract(object):
         self.uses = []          # names of lemmas assumed (they are proved separately, by induction)
         self.loop_hints = {}    # ordinal -> [Clause]: facts proved, then assumed, at the end of each iteration
         self.uses_at = []
+        self.uses_exit = []
         self.exit_hints = []
+        self.cuts = {}
 
 
 class ClassInfo(object):
@@ -189,6 +191,10 @@ class Registry(object):
         tree = ast.parse(src, path)
         self.files.append(path)
         for node in tree.body:
+            if isinstance(node, ast.Assign) and len(node.targets) == 1 and isinstance(node.targets[0], ast.Name):
+                # NAME = <type expression>: a type alias usable in the contracts that follow
+                ptypes.TYPE_ALIASES[node.targets[0].id] = ptypes.parse_type(node.value)
+                continue
             if isinstance(node, ast.Expr) and isinstance(node.value, ast.Call) and isinstance(node.value.func, ast.Name):
                 fn = node.value.func.id
                 if fn == 'classdef':
@@ -318,6 +324,14 @@ class Registry(object):
                         c.uses.append(a.id)
                     else:
                         c.uses_at.append(a)          # lemma(args): instance at the given arguments (evaluated at entry)
+            elif k == 'uses_at_exit':
+                for a in args:
+                    c.uses_exit.append(a)                # lemma(args): instance at arguments evaluated in the exit state
+            elif k == 'cut':
+                # cut('<source prefix of a top-level statement>', invariant, 'label'): block contract -- every path reaching
+                # the statement must establish the invariant; verification continues from it on one generic path
+                pat = ast.literal_eval(args[0])
+                c.cuts.setdefault(pat, []).append(Clause('cut', args[1], lab(2, 'cut%d' % sum(len(v) for v in c.cuts.values())), st.lineno))
             elif k == 'exit_hint':
                 c.exit_hints.append(Clause('hint', args[0], lab(1, 'exit_hint%d' % len(c.exit_hints)), st.lineno))
             elif k == 'assumes':
